@@ -84,6 +84,12 @@ def token_lines(tok, i, st):
         sh = shebangs_of(_f)
         # a body line that merely looks like a first-line declaration (only the very first line of a file is one)
         return [f"{sh[-1]} body_line_{i}" if sh else f"shebangless_body_{i} = {i}"]
+    if tok == "M":
+        # a header pasted from a CRLF file into an LF file: its lines (and only they) end in CR LF
+        tags = [f"SPDX-FileCopyrightText: 200{i} Old{i}", "SPDX-License-Identifier: ISC", "SPDX-FileContributor: Pasted"]
+        if single:
+            return [f"{single} {t}\r" for t in tags]
+        return [multi[0] + "\r"] + [(f"{multi[1]} {t}" if multi[1] else t) + "\r" for t in tags] + [multi[2] + "\r"]
     if tok == "R":
         # a code line that holds a carriage return as data (a Vim mapping, a test fixture): only judged in LF files
         return [f"map_{i} = 'a\rb'"]
@@ -118,14 +124,14 @@ def split_by_construction(seq, st, prefix_lines, replace):
     single = st[2]
     chunks = [(t, token_lines(t, i, st)) for i, t in enumerate(seq)]
     P = list(prefix_lines)
-    hs = [i for i, t in enumerate(seq) if t in "HTU"]
+    hs = [i for i, t in enumerate(seq) if t in "HTUM"]
     if not replace or not hs:
         return P, [], [l for _t, ls in chunks for l in ls], (0, -1)
     hi = hs[0]
     lo, up = hi, hi
     if single:
         # a shebang-like body line that starts with the single-line marker ('#!' in '#' styles) is itself a comment line
-        run = "OHTU" + ("S" if chunks and any(t == "S" and ls[0].startswith(single) for t, ls in chunks) else "")
+        run = "OHTUM" + ("S" if chunks and any(t == "S" and ls[0].startswith(single) for t, ls in chunks) else "")
         while lo > 0 and seq[lo - 1] in run:
             lo -= 1
         while up + 1 < len(seq) and seq[up + 1] in run:
@@ -138,7 +144,7 @@ def split_by_construction(seq, st, prefix_lines, replace):
 
 
 def bounds(tier, seed):
-    return {"tokens": list(TOKENS) + ["X (multi-line-only styles)", "G (5000-character line), U (one-line header), Q (code line quoting U's text): 26 fixed sequences per style; N (snippet block), R (carriage return as data in an LF file, 10 sequences)"], "max_len": {"python,c": 3 if tier == "quick" else 4, "other styles": 2 if tier == "quick" else 3},
+    return {"tokens": list(TOKENS) + ["X (multi-line-only styles)", "G (5000-character line), U (one-line header), Q (code line quoting U's text): 26 fixed sequences per style; N (snippet block), R (carriage return as data in an LF file, 10 sequences), M (header with CR LF lines pasted into an LF file, 5 sequences)"], "max_len": {"python,c": 3 if tier == "quick" else 4, "other styles": 2 if tier == "quick" else 3},
             "styles": list(all_styles(tier)), "prefixes": ["none", "BOM", "shebang (styles that define one)", "BOM+shebang", "'#!' interpreter line (every style, 8 fixed sequences)"],
             "line_endings": ["LF", "CRLF", "CR"], "final_newline": [True, False], "modes": ["replace", "--no-replace"],
             "seed_slice": "sequences of the next length starting with TOKENS[seed % 10] for python" if tier == "quick" else None}
@@ -177,7 +183,7 @@ def cases(tier, seed):
                         for replace in (True, False):
                             yield {"style": name, "seq": s, "prefix": prefix, "ending": ending, "final": final, "replace": replace}
     for name in all_styles(tier):
-        for s in ("R", "CR", "RC", "HR", "RH", "CRH", "RRC", "CCCR", "RCCC", "CRC"):
+        for s in ("R", "CR", "RC", "HR", "RH", "CRH", "RRC", "CCCR", "RCCC", "CRC", "CCCCM", "MCCCC", "CCMCC", "CCCCMB", "CCCCCCM"):
             for prefix in ("none", "bom", "shebang"):
                 for final in (True, False):
                     for replace in (True, False):
@@ -245,7 +251,7 @@ def evaluate(c) -> R:
         r.outcome, r.nontrivial = "n/a-empty", False
         return r
     old = "\n".join(old_lines) + ("\n" if c["final"] else "")
-    if "R" in seq and old.count("\n") <= old.count("\r"):
+    if ("R" in seq or "M" in seq) and old.count("\n") - old.count("\r\n") <= old.count("\r"):
         # not an LF file by any count: a file whose only line break is the carriage return *is* a CR file
         r.outcome, r.nontrivial = "n/a", False
         return r
@@ -285,7 +291,11 @@ def evaluate(c) -> R:
     if has_term or ending == "\n":
         probe = new.replace("\r\n", "\x00") if ending == "\r\n" else new
         other = {"\n": ["\r"], "\r\n": ["\r", "\n"], "\r": ["\n"]}[ending]
-        if "R" in seq:
+        if "M" in seq:
+            # the carriage returns belong to the pasted header: none may be added, and nothing of the old header may stay behind
+            if new.count("\r") > old.count("\r"):
+                r.violation(f"line-ending|{sig}|pasted-crlf-header", f"{label}: more carriage returns than before: {new_b[:200]!r}")
+        elif "R" in seq:
             # the carriage returns that are data must still be there, and no other
             if new.count("\r") != old.count("\r"):
                 r.violation(f"line-ending|{sig}|stray-cr", f"{label}: old file is an LF file with {old.count(chr(13))} carriage return(s) as data, new file has {new.count(chr(13))}: {new_b[:200]!r}")
@@ -349,7 +359,7 @@ def evaluate(c) -> R:
                     break
             if H and c["replace"]:
                 for i, tok in enumerate(seq):
-                    if tok in "HTU" and i == min(j for j, t in enumerate(seq) if t in "HTU") and (f"Old{i}" if tok != "U" else "OldU") not in middle:
+                    if tok in "HTUM" and i == min(j for j, t in enumerate(seq) if t in "HTUM") and (f"Old{i}" if tok != "U" else "OldU") not in middle:
                         r.violation(f"old-info-lost|{sig}", f"{label}: information of the replaced header (Old{i}) is gone: {new_n!r}")
     r.outcome = "exit0"
     r.nontrivial = len(seq) >= 1
